@@ -611,9 +611,10 @@ def _arange(I, a, k):
     return A.arange(*a, dtype=k.get("dtype"))
 
 
-@model(np.asarray, np.asanyarray)
+@model(np.asarray, np.asanyarray, np.ascontiguousarray, np.asfortranarray)
 def _asarray(I, a, k):
-    """np.asarray: NO copy when the argument already is an array of the requested dtype (the result IS the argument: writes go through)"""
+    """np.asarray: NO copy when the argument already is an array of the requested dtype (the result IS the argument: writes go through).
+    ascontiguousarray / asfortranarray: same values and index function (memory layout is not modelled); treated as no copy, the case in which writes alias"""
     if not _anysym(a, k):
         return NotImplemented
     x = a[0]
